@@ -38,6 +38,10 @@ class CompoundQuery(qcore.Query):
     of multiple sub-queries .
     """
 
+    # Whether normalize() treats the subqueries as a conjunction (True) or a
+    # disjunction (False) when it merges ranges and absorbs Every/NullQuery
+    intersect_merge = False
+
     def __init__(self, subqueries, boost=1.0):
         for subq in subqueries:
             if not isinstance(subq, qcore.Query):
@@ -132,9 +136,21 @@ class CompoundQuery(qcore.Query):
         if all(q is qcore.NullQuery for q in subqueries):
             return qcore.NullQuery
 
-        # If there's an unfielded Every inside, then this query is Every
-        if any((isinstance(q, Every) and q.fieldname is None)
-               for q in subqueries):
+        if self.intersect_merge:
+            # In a conjunction a Null clause matches nothing, so neither does
+            # the conjunction, and an unfielded Every matches everything, so it
+            # can be dropped
+            if any(q is qcore.NullQuery for q in subqueries):
+                return qcore.NullQuery
+            rest = [q for q in subqueries
+                    if not (isinstance(q, Every) and q.fieldname is None)]
+            if not rest:
+                return Every()
+            subqueries = rest
+        elif any((isinstance(q, Every) and q.fieldname is None)
+                 for q in subqueries):
+            # If there's an unfielded Every inside a disjunction, then this
+            # query is Every
             return Every()
 
         # Merge ranges and Everys
